@@ -252,7 +252,7 @@ def one_document(ctx, name, cls, seedstr, classes, every_position):
         if not used:
             continue
         case = {"cls": name, "seedstr": seedstr, "kinds": used, "level": "multi", "round": r}
-        check_etree(ctx, mod, s0, "+".join(sorted(set(used))) if len(used) > 1 else used[0], "multi", case)
+        check_etree(ctx, mod, s0, "several" if len(used) > 1 else used[0], "multi", case)
         for form, data in renderings(mod, rng):
             if form not in base_text:
                 continue
